@@ -20,6 +20,7 @@ import (
 
 type channel struct {
 	mu                    sync.RWMutex
+	initMu                sync.Mutex // serializes the registration of tracks (start time, track table, MPD)
 	name                  string
 	dir                   string
 	authUser              string
@@ -126,6 +127,8 @@ func (ch *channel) addInitDataAndUpdateTimescale(stream stream, init *mp4.InitSe
 	if init == nil {
 		return fmt.Errorf("no moov box found in init segment")
 	}
+	ch.initMu.Lock()
+	defer ch.initMu.Unlock()
 	r := &trData{
 		name:        stream.trName,
 		contentType: stream.mediaType,
